@@ -139,7 +139,7 @@ func ModRMByOperand(modeStr string, regOperand string, rmOperand string, bitMode
 		}
 
 		out := []byte{modrmByte}
-		if sibByte != 0 { // Check if SIB byte is present
+		if hasSIB(modrmByte, memInfo, bitMode) { // SIB byte is present (its value may be 0x00)
 			out = append(out, sibByte)
 		}
 		if len(dispBytes) > 0 {
@@ -201,7 +201,7 @@ func ModRMByValue(modeStr string, regValue int, rmOperand string, bitMode cpu.Bi
 		}
 
 		out := []byte{modrmByte}
-		if sibByte != 0 { // Check if SIB byte is present
+		if hasSIB(modrmByte, memInfo, bitMode) { // SIB byte is present (its value may be 0x00)
 			out = append(out, sibByte)
 		}
 		if len(dispBytes) > 0 {
@@ -226,6 +226,14 @@ func ModRMByValue(modeStr string, regValue int, rmOperand string, bitMode cpu.Bi
 	out := mod | regBits | rmBits
 	log.Printf("debug: ModRMByValue (reg): reg=%d(%b), rm=%s(%b), result=%#x", regValue, regBits, rmOperand, rmBits, out)
 	return []byte{out}
+}
+
+// hasSIB は calculateModRM が返した ModR/M バイトの後ろに SIB バイトが続くかどうかを返す。
+// 32ビットアドレッシングで mod != 11 かつ r/m = 100 のとき SIB が存在する
+// (SIB の値が 0x00 になる [EAX+EAX] などでも省略してはならない)。
+func hasSIB(modrmByte byte, mem *ng_operand.MemoryInfo, bitMode cpu.BitMode) bool {
+	addr32 := bitMode != cpu.MODE_16BIT || is32BitRegister(mem.BaseReg) || is32BitRegister(mem.IndexReg)
+	return addr32 && modrmByte&0b111 == 0b100 && modrmByte>>6 != 0b11
 }
 
 // calculateModRM は MemoryInfo から ModR/M, SIB, Displacement を計算する
